@@ -93,12 +93,15 @@ func main() {
 				// the store lives on after a failed call: it must answer like a store
 				// that reads the file afresh
 				if fresh, ferr := credentials.NewFileStore(sc.Dir); ferr == nil {
-					for _, addr := range sc.Probe {
+					for pi, addr := range sc.Probe {
 						a, ea := fs.Get(ctx, addr)
 						b, eb := fresh.Get(ctx, addr)
 						if ea == nil && eb == nil && a != b {
 							os.WriteFile(sc.Marker+".disagree", []byte(fmt.Sprintf("Get(%q): the store the failed %s ran on answers {%q %q %q %q}, a store opened on the file {%q %q %q %q}", addr, op.Op, a.Username, a.Password, a.RefreshToken, a.AccessToken, b.Username, b.Password, b.RefreshToken, b.AccessToken)), 0o644)
-							fatal(81)
+							if pi > 30 {
+								pi = 30
+							}
+							fatal(81 + pi) // (the detail file cannot be written while write(2) is made to fail)
 						}
 					}
 				}
